@@ -14,7 +14,9 @@ TRUSTED_BASE = [
     "tied to the REAL generated archetypes by differential execution: harness/cmd/c14 runs pbkvs.AReplica/AClient under the real Run loop "
     "(harness/steplib gate FairnessCounter, trace recorder) and the full spec state is compared with the model's after every step (coq/C14/Corr.v, vm_compute)",
     "the deployment resources (TCP mailboxes, failure detector, file system, leader election stub) are replaced by spec-state resources that implement "
-    "the mapping macros of pbkvs.tla; that a label is atomic and a link FIFO exactly-once is C01/C06/C07, that fd is perfect is the statement's hypothesis",
+    "the mapping macros of pbkvs.tla; that a label is atomic and a link FIFO exactly-once is C01/C06/C07, that fd is perfect is the statement's hypothesis; "
+    "the wiring of systems/pbkvs/bootstrap is checked separately (wiring mode: fs and primary are the resources bootstrap wires; wiring probe: index "
+    "mapping of net / netLen / fd over loopback); the deployed leader election is a constant stub (known finding): the theorems are about the spec's failover",
     "CHOOSE r \\in replicaSet : TRUE is modelled as an arbitrary element (the element the Go code took is observed and handed to the model)",
     "int32 version numbers / request ids are modelled by unbounded naturals",
 ]
